@@ -81,13 +81,14 @@ FileEv ==
 (* ------------------------------ monitors (C) ----------------------------- *)
 \* C20 / C08 at the level of tokens: every identifier appended directly to a statement that the observed value reaches
 \* appears in the output, in the order of appending (nothing lost, nothing reordered) - whatever was cloned, added or
-\* appended to other statements in between.  (Reads the recorded calls only, not the model's rendering.)
+\* appended to other statements in between.  (Reads the recorded calls only, not the model's rendering.  The edge from a
+\* clone to its original is not followed: a clone that is a true copy need not show what is appended to the original later.)
 OwnIds(c) == LET s == SelectSeq(cells[c].items, LAMBDA it : it.t = "id" /\ it.v # "_") IN [i \in DOMAIN s |-> s[i].v]
 RECURSIVE SubAt(_, _, _, _)
 SubAt(s, i, t, j) == IF i > Len(s) THEN TRUE ELSE IF j > Len(t) THEN FALSE
                      ELSE IF s[i] = t[j] THEN SubAt(s, i + 1, t, j + 1) ELSE SubAt(s, i, t, j + 1)
 TokensKept(roots, toks) ==
-  \A c \in UNION {Reach(cells, r) : r \in roots} :
+  \A c \in UNION {ReachNC(cells, r) : r \in roots} :
      ~SubAt(OwnIds(c), 1, toks, 1) => Report("C20", "tokens of a statement lost or reordered in the output (system tier)")
 
 Quals(refs, bare) == {<<r.path, r.qual>> : r \in refs} \cup {<<p, "">> : p \in bare}
